@@ -2,8 +2,10 @@ package main
 
 import (
 	"bytes"
+	"crypto/md5"
 	"encoding/json"
 	"encoding/xml"
+	"fmt"
 	"io"
 	"net/http"
 	"net/url"
@@ -28,7 +30,10 @@ type c19Item struct {
 	Tags    []string `json:"tags" xml:"tags"`
 }
 
-var c19Strs = []string{"hello", "<b>bold</b> & more", "héllo wörld ✓", "tab\tand\nnewline", "", "quote\"s' and \\", " sep", "a=b&c=d"}
+var c19Strs = []string{"hello", "<b>bold</b> & more", "héllo wörld ✓", "tab\tand\nnewline", "", "quote\"s' and \\", " sep", "a=b&c=d", "a\xffb\x00c", strings.Repeat("z", 70000)}
+
+// JSONP callbacks (the case's value number picks one)
+var c19Cbs = []string{"cb", "a.b", "$x", "f_1"}
 
 func c19Value(vk int) any {
 	switch vk % 6 {
@@ -61,14 +66,15 @@ var c19Statuses = []int{200, 201, 202, 400, 404, 500, 0, 302, 307, 299, 499, 520
 var c19Accepts = []string{"", "application/json", "text/xml, application/json", "text/plain, application/json", "application/xml", "text/xml", "text/html, text/plain",
 	"image/png", "image/png, text/plain;q=0.5", "*/*", "application/json;q=0.9, text/plain", " text/plain , application/xml", "text/html", ",,application/xml", "application/xml, text/html",
 	"text/csv;q=0.9, application/json", "*/*;q=0.1, text/xml", "image/png;q=1;level=2 , text/plain;q=0.5", "text/csv; q=0.9,text/html;q=0.8, application/json",
-	"application/json ;q=0.9", "text/csv, application/xml\t; q=0.5, text/plain", "text/plain ; charset=utf-8"}
+	"application/json ;q=0.9", "text/csv, application/xml\t; q=0.5, text/plain", "text/plain ; charset=utf-8",
+	"a/b, c/d, e/f, g/h, i/j, application/json", "a/1,a/2,a/3,a/4,a/5,a/6,a/7,a/8,a/9,a/10, text/xml, application/json", "TEXT/PLAIN, application/json"}
 
 func c19Gen(r *Rng, tier string, i int) Sx {
 	preset := A("none")
 	if r.Chance(1, 3) {
 		preset = S(r.Pick([]string{"application/custom", "text/csv; charset=utf-8", "text/csv", "text/event-stream", "text/javascript", "text/xml", "text/x-json", "TEXT/plain"}))
 	}
-	vk := r.Intn(48)
+	vk := r.Intn(60)
 	encj, encx := c19Enc(vk)
 	if i%4 == 3 {
 		return L(A("auto"), S(r.Pick(c19Accepts)), I(vk), preset, B(encj), B(encx))
@@ -83,16 +89,19 @@ func c19Gen(r *Rng, tier string, i int) Sx {
 	return h
 }
 
+var c19CurCb = "cb"
+
 func c19Decoded(helper string, v any, body []byte) Sx {
 	switch helper {
 	case "json", "jsonp":
 		b := body
 		if helper == "jsonp" {
 			s := string(body)
-			if !strings.HasPrefix(s, "cb(") || !strings.HasSuffix(s, ");") {
+			cb := c19CurCb
+			if !strings.HasPrefix(s, cb+"(") || !strings.HasSuffix(s, ");") {
 				return L(A("dec"), A("diff"))
 			}
-			b = []byte(s[3 : len(s)-2])
+			b = []byte(s[len(cb)+1 : len(s)-2])
 		}
 		var got, want any
 		if err := json.Unmarshal(b, &got); err != nil {
@@ -116,13 +125,26 @@ func c19Decoded(helper string, v any, body []byte) Sx {
 		if err := xml.Unmarshal(body, &got); err != nil {
 			return L(A("dec"), A("err"))
 		}
-		got.XMLName, it.XMLName = xml.Name{}, xml.Name{}
-		if reflect.DeepEqual(got, it) {
+		// (the reference goes through the codec too: encoding/xml replaces bytes that are not valid UTF-8)
+		var want c19Item
+		if wb, err := xml.Marshal(it); err != nil || xml.Unmarshal(wb, &want) != nil {
+			return L(A("dec"), A("err"))
+		}
+		got.XMLName, want.XMLName = xml.Name{}, xml.Name{}
+		if reflect.DeepEqual(got, want) {
 			return L(A("dec"), A("ok"))
 		}
 		return L(A("dec"), A("diff"))
 	}
-	return SB(body)
+	return c19Body(body)
+}
+
+// c19Body: a long body is reported by its length and digest
+func c19Body(b []byte) Sx {
+	if len(b) > 2048 {
+		return L(A("long"), I(len(b)), A(fmt.Sprintf("%x", md5.Sum(b))))
+	}
+	return SB(b)
 }
 
 func c19Exec(c Sx) (out Sx) {
@@ -137,6 +159,7 @@ func c19Exec(c Sx) (out Sx) {
 	switch c.Head() {
 	case "h":
 		helper, status, vk := c.List[1].Sym(), c.List[2].Int(), c.List[3].Int()
+		c19CurCb = c19Cbs[vk%4]
 		v := c19Value(vk)
 		if ej, ex := c19Enc(vk); B(ej).Atom != c.List[5].Atom || B(ex).Atom != c.List[6].Atom {
 			panic("c19: inconsistent encodability oracle")
@@ -163,7 +186,7 @@ func c19Exec(c Sx) (out Sx) {
 			case "jsonbytes":
 				ctx.JSONBytes(status, []byte(str))
 			case "jsonp":
-				ctx.JSONP(status, "cb", v)
+				ctx.JSONP(status, c19Cbs[vk%4], v)
 			case "xml":
 				ctx.XML(status, v)
 			case "blob":
@@ -212,7 +235,7 @@ func c19Exec(c Sx) (out Sx) {
 				body = c19Decoded(strings.TrimSuffix(helper, "indent"), v, w.body)
 			}
 		default:
-			body = SB(w.body)
+			body = c19Body(w.body)
 		}
 		if w.nWH != 1 { // a helper commits the header once
 			return L(A("h"), L(A("header-commits"), I(w.nWH)), S(ct), body, I(nerr), S(w.snap.Get("Location")))
@@ -220,6 +243,7 @@ func c19Exec(c Sx) (out Sx) {
 		return L(A("h"), I(w.code), S(ct), body, I(nerr), S(w.snap.Get("Location")))
 	case "rdr":
 		name, vk := c.List[1].Sym(), c.List[2].Int()
+		c19CurCb = c19Cbs[vk%4]
 		v := c19Value(vk)
 		if ej, ex := c19Enc(vk); B(ej).Atom != c.List[4].Atom || B(ex).Atom != c.List[5].Atom {
 			panic("c19: inconsistent encodability oracle")
@@ -252,7 +276,7 @@ func c19Exec(c Sx) (out Sx) {
 				err = render.NewJSONIndented().Render(w, v)
 			}
 		case "jsonp":
-			err = render.JSONP("cb", v, w)
+			err = render.JSONP(c19Cbs[vk%4], v, w)
 		case "xml":
 			err = render.XML(w, v)
 		case "xmlpretty":
@@ -270,7 +294,7 @@ func c19Exec(c Sx) (out Sx) {
 				body = c19Decoded(kind, v, w.body)
 			}
 		default:
-			body = SB(w.body)
+			body = c19Body(w.body)
 		}
 		return L(A("rdr"), S(w.hdr.Get("Content-Type")), body, B(err != nil))
 	case "auto":
